@@ -1,48 +1,180 @@
 """C36 - rate limiting (launch/ratelimit.go). Specs: RateLimit.tla, RateLimitTrace.tla.
 
-Choice (binding A): every history of the exhaustive config (all sequences of MaxSteps actions from
-every initial rule-set configuration) and seeded -simulate walks are replayed on a real
-RateLimitHandler with real rule sets; after every request the RateLimiterResult in the context
-(ruleset type, description, burst of the limiter) must be the rule Choose picks from the
-statement's precedence, evaluated for that request on the current rule sets.
-Enforcement (binding B): bursts recorded from the real limiter under one fixed rule, harness clock
-read around every call, judged by RateLimit!WindowOK (allowed <= burst + rate x window for every
-window, the window measured from before its first call to after its last one)."""
+Choice (binding A): every history of the exhaustive configs (all sequences of MaxSteps actions from
+every initial rule-set configuration; wide catalogues = every rule has its own burst, tight
+catalogues = rules of burst 1 and 2, the same rule in several rule sets, zero and no-limit rules)
+and seeded -simulate walks are replayed on a real RateLimitHandler with real rule sets; after every
+request the RateLimiterResult in the context (ruleset type, description, burst and period of the
+limiter) must be the rule Choose picks from the statement's precedence, evaluated for that request
+on the current rule sets.
+Enforcement (binding B): the same replays are recorded with the harness clock read around every
+request, together with bursts under one rule during which the harness changes everything but the
+rule; RateLimitTrace.tla judges every limiter instance of every recorded execution by
+RateLimit!WindowOK: in every window of its requests during which the rule in force keeps its limit
+and burst, allowed <= burst + rate x window (the window measured from before its first call to
+after its last one)."""
 import os
 from vlib import core
 
 CACHED = {"cached-clientid": "cached-clientid-limiter", "cached-net": "cached-net-limiter",
           "cached-node": "cached-node-limiter", "cached-suffrage": "cached-suffrage-limiter",
           "suffrage-rehash": "cached-suffrage-limiter"}
+PER_NS = 3_000_000_000      # every rule of the catalogues is "<burst> / 3s"
+UNIT = 10_000               # replays: clock and period in units of 10 microseconds (TLC integers are 32 bit)
+SETS = {"SetClientID": "cid", "SetNet": "nets", "SetNode": "nodes", "SetSuffrage": "suf", "SetDefault": "def"}
+
+
+def trace_line(hist, row):
+    """the recorded replay of one history in the format of RateLimitTrace.tla (None: no request)"""
+    insts = {}
+    for o in row["obs"]:
+        a = hist[o["step"]]
+        if a["a"] != "Request" or o.get("err"):
+            continue
+        insts.setdefault("%s/%s" % (a["addr"], a["h"]), []).append(
+            [o["burst"], o.get("per_ns", 0) // UNIT, o["tb"] // UNIT, -(-o["ta"] // UNIT), 1 if o["allowed"] else 0, o["step"]])
+    if not insts:
+        return None
+    names = sorted(insts)
+    return {"src": "history", "names": names, "insts": [insts[k] for k in names]}
+
+
+def across(hist, row, name, si, sj):
+    """what happens between the requests si and sj of the instance `name` (names the class of a bad window)"""
+    cur = {k: hist[0].get(k) for k in ("cid", "nets", "nodes", "suf", "def", "members")}
+    types = {o["step"]: o.get("type") for o in row["obs"]}
+    labels, seen = set(), set()
+    for i, a in enumerate(hist):
+        inside = si < i < sj
+        if a["a"] in SETS:
+            if inside:
+                labels.add(a["a"] + ("(equal)" if a["set"] == cur[SETS[a["a"]]] else ""))
+            cur[SETS[a["a"]]] = a["set"]
+        elif a["a"] == "SetMembers":
+            if inside:
+                labels.add("SetMembers" + ("(hash-only)" if sorted(a["members"]) == sorted(cur["members"]) else ""))
+            cur["members"] = a["members"]
+        elif a["a"] == "AddNode" and inside:
+            labels.add("AddNode")
+        elif a["a"] == "Request" and si <= i <= sj:
+            if "%s/%s" % (a["addr"], a["h"]) == name:
+                seen.add(types.get(i))
+            else:
+                labels.add("other-instance")
+    if len(seen) > 1:
+        labels.add("type-flip")
+    return "+".join(sorted(labels)) if labels else "nothing"
+
+
+def stronger_reading(line):
+    """the bound over all requests of an instance that were judged by one rule, whether or not another rule was in
+    force in between (the stronger reading of 'the rule'): the bad windows (reported, not an alarm)"""
+    bad = []
+    for name, s in zip(line["names"], line["insts"]):
+        for i in range(len(s)):
+            b, per = s[i][0], s[i][1]
+            if b <= 0:
+                continue
+            c = 0
+            for j in range(i, len(s)):
+                if s[j][0] != b or s[j][1] != per:
+                    continue
+                c += s[j][4]
+                if (c - b) * per > b * (s[j][3] - s[i][2]):
+                    bad.append([name, s[i][5], s[j][5]])
+                    break
+            if bad:
+                break
+    return bad
+
+
+def validate(ctx, lines, timeout):
+    path = os.path.join(ctx.work, "trace%d.ndjson" % (getattr(ctx, "_ntlc", 0) + 1))
+    core.write_ndjson(path, [{"src": ln["src"], "insts": ln["insts"]} for ln in lines])
+    accepted, rr, hw = ctx.tlc_validate_trace("RateLimitTrace", "RateLimitTrace.cfg", path, timeout=timeout)
+    if hw is not None or (not accepted and not rr.mismatches()):
+        raise core.MachineryError("validation of the recorded executions did not consume the trace (hw=%s):\n%s" % (hw, rr.out[-3000:]))
+    out = []
+    for (cls, line, rest) in rr.mismatches():
+        x, si, sj = [int(v) for v in rest.split(",")]
+        out.append((cls, line - 1, x - 1, si, sj))
+    return out
+
+
+def judge_choice(ctx, hist, row, stats):
+    byi = {o["step"]: o for o in row["obs"]}
+    for i, a in enumerate(hist):
+        if a["a"] != "Request":
+            continue
+        stats["requests"] += 1
+        o = byi.get(i)
+        if o is None or o.get("err"):
+            raise core.MachineryError("no observation for request %d of %s: %s" % (i, hist, o))
+        got = [o["type"], o["burst"], o["desc"]]
+        want, impl, path = a["want"], a["impl"], a["path"]
+        stats["paths"][path] = stats["paths"].get(path, 0) + 1
+        stats["model_allowed" if a.get("ok") else "model_refused"] += 1
+        if impl != want:
+            stats["model_deviations"] += 1
+        where = "request %d (addr %s, handler %s, client id %r, node %r)" % (i, a["addr"], a["h"], a["c"], a["node"])
+        if got != want:
+            if got == impl and path in CACHED:
+                key = CACHED[path]
+            else:
+                key = "choice(path=%s;got=%s;want=%s)" % (path, got[0], want[0])
+            ctx.violation(key, "%s was limited by the %s rule %s%s, the precedence of the statement gives the %s rule %s%s; history: %s" % (
+                where, got[0], o["limiter"], " (%s)" % got[2] if got[2] else "",
+                want[0], want[1], " (%s)" % want[2] if want[2] else "",
+                [(x["a"], x.get("addr"), x.get("h"), x.get("c")) for x in hist[:i + 1]]),
+                {"history": hist[:i + 1], "observed": row["obs"], "request": i})
+            return      # the rest of this history runs on a limiter the statement would not have
+        if got != impl:
+            stats["model_only"].append({"history": [x["a"] for x in hist[:i + 1]], "impl": impl, "got": got})
+        if got[1] > 0 and abs(o.get("per_ns", 0) - PER_NS) > 3000:
+            ctx.violation("choice(rate;path=%s;type=%s)" % (path, got[0]),
+                          "%s: the limiter has the burst of the %s rule %s/3s but refills it in %s ns (limiter %s); history: %s" % (
+                              where, got[0], got[1], o.get("per_ns"), o["limiter"], [x["a"] for x in hist[:i + 1]]),
+                          {"history": hist[:i + 1], "observed": row["obs"], "request": i})
+            return
 
 
 def run(ctx):
     quick = ctx.tier == "quick"
-    cfg = "RateLimit_mc_quick.cfg" if quick else "RateLimit_mc_thorough.cfg"
-    r, steps = ctx.tlc_dump_steps("RateLimit", cfg, timeout=2400)
-    maxlen = max(len(s) for s in steps)
-    hists = [s for s in steps if len(s) == maxlen]      # the leaves: complete histories
-    nexh = len(hists)
+    stats = {"requests": 0, "paths": {}, "model_deviations": 0, "model_only": [], "model_allowed": 0, "model_refused": 0}
+    # ---------------------------------------------------------------- histories of the model
+    parts = []
+    for cfg in (["RateLimit_mc_quick.cfg", "RateLimit_mc_tight_quick.cfg"] if quick else
+                ["RateLimit_mc_thorough.cfg", "RateLimit_mc_tight_thorough.cfg", "RateLimit_mc_tight_deep.cfg"]):
+        r, steps = ctx.tlc_dump_steps("RateLimit", cfg, timeout=3000)
+        maxlen = max(len(s) for s in steps)
+        leaves = [s for s in steps if len(s) == maxlen]      # complete histories
+        parts.append((cfg, maxlen - 1, leaves))
     ctx.exhaustive = True
     rc = ctx.tlc("RateLimit", "RateLimit_mc_candidate.cfg", allow_violation=True, timeout=900, count=False)
     ctx.extra["model_candidate_ImplMatchesChoose"] = ("violated on the transcription (see DeviationOnlyViaCache)"
                                                       if rc.safety_violation else "holds on the transcription")
-    _, behs = ctx.tlc_simulate("RateLimit", "RateLimit_sim.cfg", num=80 if quick else 500, depth=31)
-    for b in behs:
-        hists.append(b[-1])      # step of the last state = the whole walk
-    ctx.rule = ("every history of %d actions of %s (%d) + %d -simulate walks of RateLimit_sim.cfg (30 actions, 3 addresses, "
-                "2 handlers); one real RateLimitHandler per history; non-trivial = the history has a request; distinct by "
-                "the action sequence" % (maxlen - 1, cfg, nexh, len(behs)))
+    rb = ctx.tlc("RateLimit", "RateLimit_mc_bucket_candidate.cfg", allow_violation=True, timeout=900, count=False)
+    if rb.violated != "BoundOK":
+        raise core.MachineryError("BoundOK is not violated when Update rebuilds the bucket on a type/checksum change "
+                                  "(RateLimit_mc_bucket_candidate.cfg): the model lost its sensitivity\n" + rb.out[-2000:])
+    ctx.extra["model_candidate_rebuild_on_type_or_checksum"] = "BoundOK violated (as it must be)"
+    walks = []
+    for cfg, depth, num in (("RateLimit_sim.cfg", 31, 80 if quick else 500), ("RateLimit_sim_tight.cfg", 41, 120 if quick else 1500)):
+        _, behs = ctx.tlc_simulate("RateLimit", cfg, num=num, depth=depth, timeout=1800)
+        walks.append((cfg, depth - 1, [b[-1] for b in behs]))      # step of the last state = the whole walk
+    hists = [h for (_, _, hs) in parts + walks for h in hs]
+    ctx.rule = ("every history of " + ", ".join("%d actions of %s (%d)" % (n, c, len(hs)) for (c, n, hs) in parts) + " + " +
+                ", ".join("%d -simulate walks of %s (%d actions)" % (len(hs), c, n) for (c, n, hs) in walks) +
+                "; one real RateLimitHandler per history; non-trivial = the history has a request; distinct by the action sequence")
     cases = os.path.join(ctx.work, "cases.ndjson")
     core.write_ndjson(cases, hists)
     res = os.path.join(ctx.work, "res.ndjson")
-    ctx.vh(["C36", "replay", "--in", cases, "--out", res], timeout=2400)
+    ctx.vh(["C36", "replay", "--in", cases, "--out", res], timeout=3000)
     rows = core.read_ndjson(res)
     if len(rows) != len(hists):
         raise core.MachineryError("harness answered %d of %d histories" % (len(rows), len(hists)))
-    calls = nreq = ndev_model = 0
-    model_only = []
-    paths = {}
+    calls = 0
+    lines, origin = [], []
     for hist, row in zip(hists, rows):
         calls += row["calls"]
         ctx.traces += 1
@@ -53,75 +185,87 @@ def run(ctx):
         if row.get("panic"):
             ctx.violation("panic", "history %s: %s" % ([a["a"] for a in hist], row["panic"][:300]), {"history": hist, "result": row})
             continue
-        byi = {o["step"]: o for o in row["obs"]}
-        for i, a in enumerate(hist):
-            if a["a"] != "Request":
-                continue
-            nreq += 1
-            o = byi.get(i)
-            if o is None or o.get("err"):
-                raise core.MachineryError("no observation for request %d of %s: %s" % (i, hist, o))
-            got = [o["type"], o["burst"], o["desc"]]
-            want, impl, path = a["want"], a["impl"], a["path"]
-            paths[path] = paths.get(path, 0) + 1
-            if impl != want:
-                ndev_model += 1
-            if got != want:
-                if got == impl and path in CACHED:
-                    key = CACHED[path]
-                else:
-                    key = "choice(path=%s;got=%s;want=%s)" % (path, got[0], want[0])
-                ctx.violation(key, "request %d (addr %s, handler %s, client id %r, node %r) was limited by the %s rule %s%s, "
-                              "the precedence of the statement gives the %s rule %s%s; history: %s" % (
-                                  i, a["addr"], a["h"], a["c"], a["node"], got[0], o["limiter"], " (%s)" % got[2] if got[2] else "",
-                                  want[0], want[1], " (%s)" % want[2] if want[2] else "",
-                                  [(x["a"], x.get("addr"), x.get("h"), x.get("c")) for x in hist[:i + 1]]),
-                              {"history": hist[:i + 1], "observed": row["obs"], "request": i})
-                break      # the rest of this history runs on a limiter the statement would not have
-            elif got != impl:
-                model_only.append({"history": [x["a"] for x in hist[:i + 1]], "impl": impl, "got": got})
-    ctx.extra["requests"] = nreq
-    ctx.extra["requests_by_code_path(model)"] = paths
-    ctx.extra["model_deviations_from_statement"] = ndev_model
-    ctx.extra["model_only_counterexamples"] = model_only[:20]
+        judge_choice(ctx, hist, row, stats)
+        ln = trace_line(hist, row)
+        if ln is not None:
+            lines.append(ln)
+            origin.append((hist, row))
+    if not stats["model_refused"]:
+        raise core.MachineryError("no history of the model empties a bucket: the enforcement half would be vacuous")
+    ctx.extra["requests"] = stats["requests"]
+    ctx.extra["requests_by_code_path(model)"] = stats["paths"]
+    ctx.extra["model_deviations_from_statement"] = stats["model_deviations"]
+    ctx.extra["model_only_counterexamples"] = stats["model_only"][:20]
+    ctx.extra["model_requests_allowed/refused"] = [stats["model_allowed"], stats["model_refused"]]
     # ---------------------------------------------------------------- enforcement
     bursts = os.path.join(ctx.work, "bursts.ndjson")
-    nb = 12 if quick else 60
+    nb = 16 if quick else 92
     ctx.vh(["C36", "bursts", "--n", nb, "--out", bursts], timeout=1200)
-    lines = core.read_ndjson(bursts)
-    accepted, rr, hw = ctx.tlc_validate_trace("RateLimitTrace", "RateLimitTrace.cfg", bursts, timeout=1800)
-    if hw is not None or (not accepted and not rr.mismatches()):
-        raise core.MachineryError("burst validation did not consume the trace (hw=%s):\n%s" % (hw, rr.out[-3000:]))
-    ctx.traces += len(lines)
-    ncalls = nallowed = 0
-    for ln in lines:
-        ncalls += len(ln["obs"])
-        nallowed += sum(o["ok"] for o in ln["obs"])
-        ctx.case(["burst", ln["rule"], ln["src"], len(ln["obs"])], nontrivial=True)
-    for (cls, line, rest) in rr.mismatches():
-        ln = lines[line - 1]
-        ctx.violation("enforcement(%s)" % cls, "rule %s (%s rule set): %d of %d calls allowed within %.1f ms, more than burst + rate x "
-                      "window for some window" % (ln["rule"], ln["src"], sum(o["ok"] for o in ln["obs"]), len(ln["obs"]),
-                                                  ln["obs"][-1]["ta"] / 1e3), {"burst": ln})
-    ctx.extra["bursts"] = {"n": len(lines), "calls": ncalls, "allowed": nallowed}
-    ctx.extra["real_calls"] = calls + ncalls
+    blines = core.read_ndjson(bursts)
+    nh = len(lines)
+    for ln in blines:
+        ctx.traces += 1
+        ctx.case(["burst", ln["rule"], ln["where"], ln["perturb"], ln["calls"]], nontrivial=True)
+    real_refused = sum(1 for ln in lines for s in ln["insts"] for r in s if r[0] > 0 and not r[4])
+    for (cls, li, x, si, sj) in validate(ctx, lines + blines, 3000):
+        if li >= nh:
+            ln = blines[li - nh]
+            key = "enforcement(%s;burst;where=%s;perturb=%s)" % (cls, ln["where"], ln["perturb"])
+            s = ln["insts"][x]
+            ctx.violation(key, "burst under the rule %s (in the %s rule set and the default map; between the calls: %s, %d times): %d of %d calls "
+                          "of %s allowed within %.1f ms, more than burst + rate x window for the window of its calls %d..%d" % (
+                              ln["rule"], ln["where"], ln["perturb"], ln["perturbations"], sum(r[4] for r in s), len(s), ln["names"][x],
+                              s[-1][3] / 1e3, si, sj), {"burst": ln})
+            continue
+        hist, row = origin[li]
+        ln = lines[li]
+        name, s = ln["names"][x], ln["insts"][x]
+        if cls != "window-bound":
+            ctx.violation("enforcement(%s)" % cls, "a request of %s was allowed by a limiter that reports the rule 0 (limit 0); history: %s" % (
+                name, [a["a"] for a in hist]), {"kind": "enforcement-history", "history": hist, "observed": row["obs"]})
+            continue
+        win = [r for r in s if si <= r[5] <= sj]
+        ctx.violation("enforcement(window-bound;across=%s)" % across(hist, row, name, si, sj),
+                      "%s: %d requests allowed from step %d to step %d within %d us while the limiter reported the rule %d/%.6fs all "
+                      "the time (burst + rate x window = %.4f); history: %s" % (
+                          name, sum(r[4] for r in win), si, sj, (win[-1][3] - win[0][2]) * UNIT // 1000, win[0][0], win[0][1] * UNIT / 1e9,
+                          win[0][0] + win[0][0] * (win[-1][3] - win[0][2]) / win[0][1],
+                          [(a["a"], a.get("addr"), a.get("c"), a.get("members")) for a in hist[:sj + 1]]),
+                      {"kind": "enforcement-history", "history": hist, "observed": row["obs"], "instance": name, "window": [si, sj]})
+    strong = [(ln, stronger_reading(ln)) for ln in lines]
+    strong = [(ln, b) for (ln, b) in strong if b]
+    ctx.extra["stronger_reading(not an alarm)"] = {
+        "what": "allowed requests judged by ONE rule counted over windows in which another rule was in force in between "
+                "(e.g. alternating requests with and without a client id: every change of rule gives a full bucket)",
+        "histories_breaking_it": len(strong),
+        "sample": [{"instance": b[0][0], "steps": b[0][1:], "insts": ln["insts"]} for (ln, b) in strong[:2]]}
+    ctx.extra["recorded_executions"] = {"histories": nh, "real_requests_refused_under_a_limit": real_refused,
+                                        "bursts": len(blines), "burst_calls": sum(ln["calls"] for ln in blines),
+                                        "burst_allowed": sum(ln["allowed"] for ln in blines),
+                                        "burst_perturbations": sum(ln["perturbations"] for ln in blines)}
+    ctx.extra["real_calls"] = calls + sum(ln["calls"] for ln in blines)
     ctx.assumptions = [
-        "every rule has its own burst (x / 3s), so the burst printed in RateLimiterResult.Limiter names the rule",
+        "wide catalogues: every rule has its own burst (x / 3s), so the burst printed in RateLimiterResult.Limiter names the rule; "
+        "tight catalogues: the same rule (1/3s, 2/3s) stands in several rule sets, type and description name it",
         "network rule maps have a rule for every handler: the two readings of 'first matching network rule' (first network "
         "containing the address vs first network containing it that has a rule for the handler) coincide",
         "the node of an address is the one given to AddNode; 30 microseconds pass between two actions so that "
         "time.Now().UnixNano() differs (the code compares UpdatedAt with >=)",
-        "enforcement: the harness clock is read before and after each call; the limiter reads its clock in between, so "
-        "allowed(i..j) <= burst + rate x (after_j - before_i) is implied by the statement for every window; no statement is "
-        "made about a minimum of allowed requests",
-        "the daemon (shrink of idle addresses) is not started",
+        "enforcement: 'the rule' of a window is the rule in force (limit, burst as the limiter reports them after each call); only "
+        "windows of consecutive requests of one limiter instance (addr, handler) during which it does not change are bounded "
+        "(weaker reading; the stronger one is counted in stronger_reading). The harness clock is read before and after each call; "
+        "the limiter reads its clock in between, so allowed(i..j) <= burst + rate x (after_j - before_i) is implied by the statement "
+        "for every window; no statement is made about a minimum of allowed requests",
+        "the daemon (shrink of idle addresses, MaxAddrs) is not started: a limiter instance lives as long as its handler",
     ]
 
 
 def replay(ctx, path):
-    """re-run the history of a replay file on a fresh RateLimitHandler and judge its last request"""
+    """re-run the history of a replay file on a fresh RateLimitHandler and judge its last request (choice) or its
+    recorded clocks (enforcement)"""
     import json
-    case = json.load(open(path))["case"]
+    doc = json.load(open(path))
+    case = doc["case"]
     if "history" not in case:
         raise core.MachineryError("replay of enforcement bursts: re-run the tier (bursts are timing dependent)")
     hist = case["history"]
@@ -131,6 +275,13 @@ def replay(ctx, path):
     row = core.read_ndjson(res)[0]
     ctx.traces += 1
     ctx.case(["replay", [x["a"] for x in hist]], nontrivial=True, sample={"history": hist[-3:], "observed": row["obs"][-3:]})
+    if case.get("kind") == "enforcement-history":
+        ln = trace_line(hist, row)
+        for (cls, li, x, si, sj) in validate(ctx, [ln], 600):
+            key = "enforcement(%s)" % cls if cls != "window-bound" else "enforcement(window-bound;across=%s)" % across(hist, row, ln["names"][x], si, sj)
+            ctx.violation(key, "%s: more requests allowed from step %d to step %d than burst + rate x window of the rule in force; calls %s" % (
+                ln["names"][x], si, sj, ln["insts"][x]), {"kind": "enforcement-history", "history": hist, "observed": row["obs"]})
+        return
     i = len(hist) - 1
     a = hist[i]
     o = {x["step"]: x for x in row["obs"]}.get(i)
@@ -141,3 +292,6 @@ def replay(ctx, path):
         key = CACHED[a["path"]] if (got == a["impl"] and a["path"] in CACHED) else "choice(path=%s;got=%s;want=%s)" % (a["path"], got[0], a["want"][0])
         ctx.violation(key, "request %d (addr %s, handler %s, client id %r) was limited by the %s rule %s, the statement gives the %s rule %s" % (
             i, a["addr"], a["h"], a["c"], got[0], o["limiter"], a["want"][0], a["want"][1]), {"history": hist, "observed": row["obs"], "request": i})
+    elif got[1] > 0 and abs(o.get("per_ns", 0) - PER_NS) > 3000:
+        ctx.violation("choice(rate;path=%s;type=%s)" % (a["path"], got[0]), "request %d: limiter %s, rule %s/3s" % (i, o["limiter"], got[1]),
+                      {"history": hist, "observed": row["obs"], "request": i})
